@@ -76,9 +76,9 @@ def enum_shard(st, shard, nshards, payload):
                 if j % stride:
                     continue
                 j //= stride
-            if j % nshards != shard:
-                continue
-            idx += 1 + shard
+            # work is dealt to the shards per (structure, formula) item, not per structure: scopes
+            # with few structures and many (or slow) formulas would otherwise leave shards idle
+            idx = j
             M = ref.Model(K)
             feats = km.features(K)
             naming = NAMINGS[idx % len(NAMINGS)]
@@ -87,6 +87,8 @@ def enum_shard(st, shard, nshards, payload):
             back = dict((km.name_of(naming)(i), i) for i in range(n))
             memo = {}
             for fi, f in enumerate(forms):
+                if (j * 7 + fi) % nshards != shard:
+                    continue
                 exp = ref.ctl_eval(M, f, memo)
                 try:
                     res = L.modelcheck(kripke, objs[fi])
